@@ -792,7 +792,7 @@ func TestPropCrafted(t *testing.T) {
 		c := CraftCase{Magic: "ok", MagicW: -1, ArrW: -1, Tag: rapid.Uint64Range(0, 1<<40).Draw(t, "tag"), Elems: []CElem{}}
 		n := rapid.IntRange(1, 3).Draw(t, "n")
 		drawLen := func(label string) int {
-			if rapid.IntRange(0, 11).Draw(t, label+"-big") == 0 {
+			if rapid.IntRange(0, 11).Draw(t, label+"-big") == 11 {
 				return rapid.SampledFrom([]int{65535, 65536}).Draw(t, label+"-biglen")
 			}
 			return rapid.SampledFrom(smallLens).Draw(t, label)
